@@ -96,6 +96,29 @@ def _rows(ctx, body, xf, octx, oeff, site_bb, depth, rows, parent):
         row = {'guard': ge, 'ctx': pc, 'atoms': accept_atoms(ge), 'eff': eff, 'parent': parent, 'spliced': parent is not None}
         rows.append(row)
         me = len(rows) - 1
+        # a boolean flag with several definitions (`let bad = a && b; if bad {..}`, the result of a spliced predicate helper): one row
+        # per definition, under the conditions of that definition
+        if c0.tag != 'discr' and (g.reject_when_true() or g.reject_when_false()):
+            dop = body.block[g.bb]['term']['discr']
+            alts = ctx.alternatives(body, g.bb, TERM_IDX, dop) if dop['k'] in ('copy', 'move') and not dop['place']['p'] else []
+            if len(alts) > 1:
+                want = g.reject_when_false()          # value the flag must have for the guard to accept
+                new_rows, okall = [], True
+                for (t_alt, dbb) in alts:
+                    ta = xf(t_alt)
+                    if ta.tag == 'const' and (isinstance(ta[1], bool) or ta[1] in (0, 1)):
+                        if bool(ta[1]) == want:
+                            continue
+                        atoms = [('const', False)]
+                    else:
+                        atoms = bool_atom(ta, positive=want)
+                    if any(a[0] == 'unknown' for a in atoms):
+                        okall = False
+                        break
+                    pc3 = tuple(sorted(set(pc) | set(path_ctx(ctx, body, dbb, gbbs, xf)), key=repr))
+                    new_rows.append({'guard': _with_cond(g, ta, site_bb), 'ctx': pc3, 'atoms': atoms, 'eff': eff, 'parent': me, 'spliced': True})
+                if okall:
+                    rows.extend(new_rows)
         if depth <= 0:
             continue
         sb = site_bb if site_bb is not None else g.bb
